@@ -81,7 +81,7 @@ Qed.
 Example premises_satisfiable :
   tx_wf sha256 w_tx /\ tx_alh sha256 (t_hdr w_tx) = Ok w_alh /\ bytes_ok w_rec = true /\
   read_tx sha256 true 6 12 w_rec = Ok (w_tx, w_alh, []) /\
-  read_value sha256 VSingle [] [w_vlog] (len w_val) w_voff (sha256 w_val) = Ok w_val.
+  read_value sha256 64 VSingle [] [w_vlog] (len w_val) w_voff (sha256 w_val) = Ok w_val.
 Proof. split; [exact w_tx_wf|]. repeat split; vm_compute; reflexivity. Qed.
 
 (* ---- (1) vLen / vOff are under no hash: ONE flipped bit of the stored vLen (2 -> 0), trailing
@@ -113,7 +113,7 @@ Theorem corrupt_entry_value_refuted :
     length rec' = length w_rec /\
     read_tx sha256 true 6 12 rec' = Ok (t', a, []) /\ t_entries t' = [e'] /\
     e_hval e' = sha256 w_val /\
-    read_value sha256 VSingle [] [w_vlog] (e_vlen e') (e_voff e') (e_hval e') = Ok [] /\
+    read_value sha256 64 VSingle [] [w_vlog] (e_vlen e') (e_voff e') (e_hval e') = Ok [] /\
     w_val <> [].
 Proof.
   exists w_rec_vlen0, w_tx_vlen0, w_alh, (w_entry [107; 49] 0 w_voff w_hval).
@@ -144,54 +144,49 @@ Proof.
   split; vm_compute; discriminate.
 Qed.
 
-(* ---- (3) a value reference that names a value log the store does not have (one flipped bit in
-   the top byte of vOff: vLogID 1 -> 5) panics in the multi-vlog configuration (s.vLogs is a map;
-   the missing entry is dereferenced); for every hash function ---- *)
-Theorem read_value_no_panic_refuted :
-  forall H, read_value H VMulti [] [w_vlog; []] 2 (5 * 2 ^ 56 + 3) (H w_val) = Panic.
+(* ---- (3) [fixed by commit c6a3ff8] a value reference that names a value log the store does not
+   have (vLogID 1 -> 5) used to panic in the multi-vlog configuration; it is an error now ---- *)
+Example absent_vlog_is_error :
+  forall H, read_value H 64 VMulti [] [w_vlog; []] 2 (5 * 2 ^ 56 + 3) (H w_val) = Err ECorruptedData.
 Proof. intros H. reflexivity. Qed.
 
 (* ---- (4) ExportTx: a value whose read ends in EOF (vOff moved beyond the end of the log) is
    taken for "truncated": the export succeeds, flagged truncated, with the digest instead of the
    value, although the committed value is still in the log ---- *)
 Theorem export_values_refuted :
-  export_values sha256 true VSingle [] [w_vlog] [w_entry [107; 49] 2 (w_voff + 100) w_hval] 0 false
+  export_values sha256 true 64 VSingle [] [w_vlog] [w_entry [107; 49] 2 (w_voff + 100) w_hval] 0 false
     = Ok (true, [w_hval]) /\
-  export_values sha256 true VSingle [] [w_vlog] [w_entry [107; 49] 2 w_voff w_hval] 0 false
+  export_values sha256 true 64 VSingle [] [w_vlog] [w_entry [107; 49] 2 w_voff w_hval] 0 false
     = Ok (false, [w_val]).
 Proof. split; vm_compute; reflexivity. Qed.
 
-(* ---- (5) the allocation made for a value read is the stored vLen, whatever MaxValueLen is:
-   one altered byte of vLen (0x00000002 -> 0x40000002) and ReadValue allocates 1 GiB ---- *)
+(* ---- (5) [fixed by commit 85f50b0] one altered byte of vLen (0x00000002 -> 0x40000002) used to
+   make ReadValue allocate 1 GiB; the read is refused now and nothing is allocated ---- *)
 Definition w_rec_huge : bytes := Eval vm_compute in set_nth 102 64 w_rec.
 Definition w_tx_huge : tx := Eval vm_compute in rtx (read_tx sha256 true 6 12 w_rec_huge) w_tx.
 
-Theorem read_value_alloc_unbounded :
-  exists rec' t' a e',
-    length rec' = length w_rec /\
-    read_tx sha256 true 6 12 rec' = Ok (t', a, []) /\ t_entries t' = [e'] /\
-    2 ^ 30 <= read_value_alloc (e_vlen e').
-Proof.
-  exists w_rec_huge, w_tx_huge, w_alh, (w_entry [107; 49] (2 ^ 30 + 2) w_voff w_hval).
-  split; [vm_compute; reflexivity|]. split; [vm_compute; reflexivity|].
-  split; [vm_compute; reflexivity|]. vm_compute. discriminate.
-Qed.
+Example huge_vlen_refused :
+  read_tx sha256 true 6 12 w_rec_huge = Ok (w_tx_huge, w_alh, []) /\
+  map e_vlen (t_entries w_tx_huge) = [2 ^ 30 + 2] /\
+  read_value sha256 64 VSingle [] [w_vlog] (2 ^ 30 + 2) w_voff w_hval = Err ECorruptedData /\
+  read_value_alloc 64 (2 ^ 30 + 2) = 0.
+Proof. repeat split; vm_compute; reflexivity. Qed.
 
 (* ---- the same three mechanisms for EVERY hash function (no evaluation of a hash involved) ---- *)
 (* ReadValue answers an entry whose vLen is 0 with the empty value before anything is checked *)
 Theorem vlen0_serves_empty :
-  forall (H : bytes -> bytes) mode txlog vlogs off hval,
-    read_value H mode txlog vlogs 0 off hval = Ok [].
+  forall (H : bytes -> bytes) mvl mode txlog vlogs off hval,
+    read_value H mvl mode txlog vlogs 0 off hval = Ok [].
 Proof. reflexivity. Qed.
 
 Theorem corrupt_entry_value_refuted_any_hash :
-  forall (H : bytes -> bytes) (v : bytes) mode txlog vlogs off,
-    v <> [] -> exists v', read_value H mode txlog vlogs 0 off (H v) = Ok v' /\ v' <> v.
-Proof. intros H v mode txlog vlogs off NE. exists []. split; [reflexivity | congruence]. Qed.
+  forall (H : bytes -> bytes) (v : bytes) mvl mode txlog vlogs off,
+    v <> [] -> exists v', read_value H mvl mode txlog vlogs 0 off (H v) = Ok v' /\ v' <> v.
+Proof. intros H v mvl mode txlog vlogs off NE. exists []. split; [reflexivity | congruence]. Qed.
 
 (* ExportTx takes an unreadable value (EOF) for a truncated one, whatever the digest is *)
 Theorem export_eof_as_truncated :
   forall (H : bytes -> bytes) (hval : bytes),
-    export_values H true VSingle [] [w_vlog] [w_entry [107; 49] 2 (w_voff + 100) hval] 0 false
+    export_values H true 64 VSingle [] [w_vlog] [w_entry [107; 49] 2 (w_voff + 100) hval] 0 false
       = Ok (true, [hval]).
 Proof. intros H hval. reflexivity. Qed.
